@@ -22,8 +22,12 @@ func init() {
 		Check:    checkBoth,
 		Extras: []core.Extra{
 			{Name: "syncring-honest-wrap", Run: extraHonestWrap, Tiers: []string{"thorough"}},
+			{Name: "syncring-cap-rounding", Run: extraCapRounding},
 		},
 		NonTrivial: func(c core.Case, out []string) bool {
+			if isCap(c) {
+				return len(c.Lines) > 3
+			}
 			if isSync(c) {
 				return syncNonTrivial(c, out)
 			}
@@ -37,14 +41,15 @@ func init() {
 			}
 			return n > 0 && len(c.Lines) > 4
 		},
-		Rule: "ring: op sequences (push/pop/peek/len/cap/isempty/isfull/recap/pushx) on Ring[int] of requested capacity -1..6, values distinct counters; non-trivial = at least one successful Recap or a PushWithExpand in a sequence of ≥ 4 ops. " +
-			"sync: op sequences (push/pop/len/cap/isempty/isfull/dump) on SyncRing[int] of requested capacity 1..9 (plus <= 0 and > 2^31), usually after warping the fresh ring's counters to k around 2^32-{0..3cap}, 2^32+j, 2^33±j (reflect+unsafe, proved equal to k honest push/pop pairs); non-trivial = at least two successful pushes. Distinct by hash of the op list",
+		Rule: "ring: op sequences (push/pop/peek/len/cap/isempty/isfull/recap/pushx) on Ring[int] of requested capacity -1..6 (1% on the never-initialised zero value, tie only), values distinct counters; non-trivial = at least one successful Recap or a PushWithExpand in a sequence of ≥ 4 ops. " +
+			"sync: op sequences (push/pop/len/cap/isempty/isfull/dump, PushWait/PopWait with maxWait 0, 1..3 ms and -1) on SyncRing[int] of requested capacity 1..9 (plus <= 0 and > 2^31), usually after warping the fresh ring's counters to k around 2^32-{0..3cap}, 2^32+j, 2^33±j (reflect+unsafe, proved equal to k honest push/pop pairs); non-trivial = at least two successful pushes. synccap: 3..9 independent NewSync[struct{}](n).Cap() calls, n among 2^k, 2^k±1, 2^k±2, 3·2^(k-1) (k <= 22), log-uniform random, <= 0, > 2^31. Distinct by hash of the op list",
 		Classify: classifyBoth,
 		Parallel: true,
 		Assumptions: []string{
 			"Go int treated as unbounded for Ring (no capacity near 2^63)",
 			"SyncRing is modelled for ONE goroutine: every CompareAndSwap on head/tail succeeds (concurrent behaviour is property C01)",
 			"SyncRing capacities in (2^20, 2^31] are proved about but not executed (the backing array does not fit in memory)",
+			"PushWait/PopWait: the ticker/clock is an input of the model (a 10 ms ticker that eventually reaches maxWait); a negative wait on a full/empty ring never returns with one goroutine (proved) and is therefore not executed: the harness answers would-block from its own count of successful pushes and pops (a call that does not return within 2 s although the count says it must is answered hang, and the spinner is released)",
 		},
 	})
 }
@@ -55,6 +60,13 @@ func corpus() []core.Case {
 		{Lines: []string{"@ C10 ring -3"}},
 		{Lines: []string{"@ C10 ring 3", "push 1", "push 2", "push 3", "pop", "push 4", "recap 5", "pop", "pop", "pop", "pop"}},
 		{Lines: []string{"@ C10 ring 2", "push 1", "push 2", "pop", "push 3", "pushx 4", "pushx 5", "len", "cap", "pop", "pop", "pop", "pop", "pop"}},
+		// the zero value (no Init): outside the property; the model is tied to what the code does
+		{Lines: []string{"@ C10 ring zero", "isempty", "len", "cap", "recap 0", "recap -2", "isfull"}},
+		{Lines: []string{"@ C10 ring zero", "push 1"}},
+		{Lines: []string{"@ C10 ring zero", "pushx 1"}},
+		{Lines: []string{"@ C10 ring zero", "pop"}},
+		{Lines: []string{"@ C10 ring zero", "peek"}},
+		{Lines: []string{"@ C10 ring zero", "recap 3"}},
 		{Lines: []string{"@ C10 ring 1", "push 1", "isfull", "push 2", "pop", "isempty", "pushx 7", "pushx 8", "cap", "pop", "pop"}},
 	}
 }
@@ -65,6 +77,9 @@ func gen(r *core.Rand, tier string) core.Case {
 		cap = r.Range(-1, 0)
 	}
 	lines := []string{fmt.Sprintf("@ C10 ring %d", cap)}
+	if r.Chance(1) {
+		lines[0] = "@ C10 ring zero" // var r Ring[int] without Init
+	}
 	n := r.Range(1, 40)
 	next := 1
 	for i := 0; i < n; i++ {
@@ -100,6 +115,9 @@ func impl(c core.Case) []string {
 		func(hdr []string) string {
 			if len(hdr) != 2 || hdr[0] != "ring" {
 				return "bad-op"
+			}
+			if hdr[1] == "zero" {
+				return "ok" // the zero value, never initialised
 			}
 			n, err := strconv.Atoi(hdr[1])
 			if err != nil {
@@ -148,6 +166,9 @@ func impl(c core.Case) []string {
 // against a plain slice queue (independent of the Lean model).
 func check(c core.Case, out []string) *core.Failure {
 	hdr := core.Toks(c.Lines[0])
+	if hdr[3] == "zero" {
+		return nil // no capacity was requested: outside the property (model tie only)
+	}
 	capacity, _ := strconv.Atoi(hdr[3])
 	if capacity <= 0 {
 		if out[0] != "panic" {
@@ -234,6 +255,9 @@ func classify(c core.Case, out []string) []string {
 		case out[i+1] == "panic":
 			ls = append(ls, "panic")
 		}
+	}
+	if core.Toks(c.Lines[0])[3] == "zero" {
+		ls = append(ls, "ring-zero-value")
 	}
 	return ls
 }
